@@ -244,6 +244,11 @@ def build_hierarchy(h, upto=None):
         kwargs["sequence"] = build_sequence(top["sequence"])
     cur = Parent(**kwargs)
     for lvl in levels[1:]:
+        if lvl.get("sequence") is None:
+            # sequence-less level: the child's parent attribute is the upper level carrying the child's location
+            loc = build_location(lvl["location_on_parent"], parent=None)
+            cur = Parent(id=lvl["id"], sequence_type=seqtype(lvl["sequence_type"]), parent=cur.reset_location(loc))
+            continue
         loc = build_location(lvl["location_on_parent"], parent=cur)
         cur = Parent(
             id=lvl["id"],
@@ -273,6 +278,15 @@ def build_location(ld, parent="__from_spec__"):
     return CompoundInterval(list(ld["starts"]), list(ld["ends"]), strand, parent=parent)
 
 
+def _innermost_sequence(h):
+    """The Sequence of the innermost level of a hierarchy that has one (with its parent chain attached)."""
+    for upto in range(len(h["levels"]) - 1, -1, -1):
+        p = build_hierarchy(h, upto=upto)
+        if p.sequence is not None:
+            return p.sequence
+    return Sequence("ACGTACGTAC", Alphabet.NT_STRICT)
+
+
 BUILDERS = {
     "collection": lambda spec: build_collection(spec),
     "gene": lambda spec: build_gene(spec, build_parent(spec.get("parent"))),
@@ -284,10 +298,7 @@ BUILDERS = {
     "variant_collection": lambda spec: build_variant_collection(spec, build_parent(spec.get("parent"))),
     "location": lambda spec: (build_location(spec), copy.deepcopy(spec)),
     "parent": lambda spec: (build_hierarchy(spec), copy.deepcopy(spec)),
-    "sequence": lambda spec: (
-        build_sequence(spec, parent=build_hierarchy(spec["parent"]) if spec.get("parent") else None),
-        copy.deepcopy(spec),
-    ),
+    "sequence": lambda spec: (_innermost_sequence(spec), copy.deepcopy(spec)),
 }
 
 
